@@ -28,7 +28,7 @@ def check_returned(ck, tag, a, b, res, known, tol, case, allow_none_known=False)
         if not (0 <= t1 <= 1 and 0 <= t2 <= 1):
             return bad('parameter-out-of-range', 'pair (%r, %r)' % (t1, t2))
         p, q = a.point(t1), b.point(t2)
-        if abs(p - q) > tol * size:
+        if not (abs(p - q) <= tol * size):
             return bad('points-do-not-coincide', 'points %r / %r at (%r, %r)' % (p, q, t1, t2))
         if known is not None and not any(abs(p - k[2]) <= max(tol * size, 1e-4 * size) for k in known):
             return bad('spurious-crossing', 'reported crossing at %r is none of the known crossings %s' % (p, [k[2] for k in known]))
@@ -121,7 +121,7 @@ def run(ck):
             for ((T1, s1, t1), (T2, s2, t2)) in res:
                 pts = [A.point(T1), s1.point(t1), s2.point(t2), B.point(T2)]
                 okm = any(s1 is s for s in A) and any(s2 is s for s in B)
-                if not okm or max(abs(p - pts[0]) for p in pts) > 1e-5 * 12 or not (0 <= T1 <= 1 and 0 <= T2 <= 1 and 0 <= t1 <= 1 and 0 <= t2 <= 1):
+                if not okm or not (max(abs(p - pts[0]) for p in pts) <= 1e-5 * 12) or not (0 <= T1 <= 1 and 0 <= T2 <= 1 and 0 <= t1 <= 1 and 0 <= t2 <= 1):
                     ck.disagree(key='Path.intersect/incoherent', site='svgpathtools/path.py:Path.intersect',
                                 what='%s: ((%r, seg, %r), (%r, seg, %r)) gives points %s (members: %s)' % (name, T1, t1, T2, t2, pts, okm), case={'family': name},
                                 expected='four equal points on member segments', observed=[str(p) for p in pts], driver='path')
